@@ -6,7 +6,7 @@ import random
 from bounded import families, gen
 from pyvc.real import real
 
-SUITES = ['mix', 'pseudo', 'li', 'val', 'data', 'cedge', 'align', 'dist']
+SUITES = ['mix', 'pseudo', 'li', 'val', 'data', 'cedge', 'align', 'dist', 'rand']
 
 
 def pairs(suite, tier, seed, variants):
